@@ -169,6 +169,18 @@ Theorem C20_marks_in_range_spec : forall (marks : list nat) (n : nat),
 Proof. exact marks_in_range_spec. Qed.
 Print Assumptions C20_marks_in_range_spec.
 
+(* verification modes parse-error (want = true) and no-parse-error (want =
+   false) on a txtar archive: accepted exactly when the marked files are
+   PRECISELY the files that have / do not have a parse error.  [perrs] has one
+   flag per file of the archive, so the number of choices is the number of
+   files (as for verify_choice, which is stated over the list of outputs,
+   whatever produced that list: one renderer per list item or one per file). *)
+Theorem C20_verify_parse_flags_iff : forall (want : bool) (marks : list nat) (perrs : list bool),
+  verify_parse_flags want marks perrs = Ok tt <->
+  (forall j, In j marks <-> nth_error perrs j = Some want).
+Proof. exact verify_parse_flags_iff. Qed.
+Print Assumptions C20_verify_parse_flags_iff.
+
 (* ---------- regression: the function before commit 1e7a3a9 ---------- *)
 
 (* the walk alone decides the statement only among the EXISTING choices … *)
